@@ -104,3 +104,21 @@ Definition adm1b (x : exporter) (hn : N) (o : xop) : bool :=
   end.
 Fixpoint admb (x : exporter) (hn : N) (ops : list xop) : bool :=
   match ops with [] => true | o :: r => adm1b x hn o && admb (fst (xstep x o)) (hn_next x hn) r end.
+
+(* ---------- address events: the decoded key of a submitted event, totals per decoded key ---------- *)
+Definition dkey (ga : list (option val)) : list (option val) :=
+  [nth_o ga 0%nat; nth_o ga 1%nat; nth_o ga 2%nat; Some (oval (nth_o ga 3%nat))].
+Definition oval_eqb (x y : option val) : bool :=
+  match x, y with None, None => true | Some u, Some v => val_eqb u v | _, _ => false end.
+Definition okey_eqb (a b : list (option val)) : bool := list_eqb oval_eqb a b.
+(* the count a decoded address-event record [t; c; f; ip; count] contributes to key k *)
+Definition dec_count (k : list (option val)) (v : option val) : N :=
+  match v with Some (VR [t; c; f; ip; Some (VN n)]) => if okey_eqb [t; c; f; ip] k then n else 0 | _ => 0 end.
+Definition dec_total (k : list (option val)) (l : list (option val)) : N := fold_right (fun v a => dec_count k v + a) 0 l.
+Definition new_aec (bp : bparams) (ga : list (option val)) (k : list (option val)) : N :=
+  if N.testbit (h_other bp) 1 then (if okey_eqb (dkey ga) k then 1 else 0) else 0.
+Fixpoint log_aec (x : exporter) (ops : list xop) (k : list (option val)) : N :=
+  match ops with
+  | [] => 0
+  | o :: r => (match o with XAec ga _ => new_aec (b_bp (x_blk x)) ga k | _ => 0 end) + log_aec (fst (xstep x o)) r k
+  end.
